@@ -1,9 +1,35 @@
-(* C07 — property theorems only.  Proofs are in C07/Proofs.v. *)
+(* C07 — property theorems only.  Proofs are in C07/Proofs.v (and C07/Digits.v). *)
 From Coq Require Import String ZArith NArith Bool List Ascii.
 From DV Require Import Base.Dec C07.Model C07.Proofs.
 Import ListNotations.
 Open Scope Z_scope.
 
+(* Every finite number — every sign, every coefficient, every exponent — is printed (the usize arithmetic of
+   scientific_to_plain never traps), the text is `-?digits(.digits)?` without exponent, it is a JSON number,
+   and it denotes exactly the number's value (equal as values: same sign, coefficients equal after cross-scaling). *)
+Theorem C07_plain_exact : forall d : dec, exists s p,
+  print d = Some s /\ is_plain s = true /\ is_json s = true /\
+  denotes s = Some p /\ neg p = neg d /\ veq p d.
+Proof. exact plain_exact. Qed.
+
+Theorem C07_no_underflow : forall d : dec, print d <> None.
+Proof. exact print_total. Qed.
+
+(* the printed text is the positional rendering of the digits: no detour through scientific notation is visible *)
+Theorem C07_print_render : forall d : dec, print d = Some (sign_of d ++ render_unsigned (coef d) (expo d)).
+Proof. exact print_render. Qed.
+
+(* the datum built from the token Numeric(ip, fp) / an xsd:decimal text is exactly the number the literal denotes
+   (the subsequent rounding to 34 digits is the identity for up to 34 significant digits: C02_round_exact) *)
+Theorem C07_literal_exact : forall ip fp, all_digits ip = true -> all_digits fp = true -> ip <> [] -> fp <> [] ->
+  denotes (ip ++ "."%char :: fp) = Some (numeric_literal ip fp).
+Proof. exact literal_exact. Qed.
+
+Theorem C07_integer_literal_exact : forall ip, all_digits ip = true -> ip <> [] ->
+  denotes ip = Some (mkdec false (digits_val ip) 0).
+Proof. exact integer_literal_exact. Qed.
+
+(* the function at the pinned commit violated the property on two classes *)
 Theorem C07_print_orig_refuted :
   (exists d s, print_orig d = Some s /\ is_plain s = false) /\
   (exists d s, print_orig d = Some s /\ is_plain s = true /\ is_json s = false).
@@ -16,5 +42,10 @@ Example C07_nonvacuous :
   print (mkdec false 0 3) = Some (rd "0"%string).
 Proof. exact print_nontrivial. Qed.
 
+Print Assumptions C07_plain_exact.
+Print Assumptions C07_no_underflow.
+Print Assumptions C07_print_render.
+Print Assumptions C07_literal_exact.
+Print Assumptions C07_integer_literal_exact.
 Print Assumptions C07_print_orig_refuted.
 Print Assumptions C07_nonvacuous.
